@@ -249,6 +249,16 @@ func cmdCheck(args []string) int {
 				P.stubs[t] = strings.ReplaceAll(hf, "~", repoModule)
 			}
 			e := NewExplorer(P, fn, h.Entry)
+			// wall-clock budget per harness: a tree on which the exploration explodes ends as inconclusive
+			// ("stopped") instead of running on
+			budget := 480
+			if tier == "thorough" {
+				budget = 2400
+			}
+			if b, err := strconv.Atoi(os.Getenv("VSYM_BUDGET_S")); err == nil && b > 0 {
+				budget = b
+			}
+			e.deadline = time.Now().Add(time.Duration(budget) * time.Second)
 			if h.Native && !*noNative {
 				e.wantWitness = 3
 				if tier == "thorough" {
